@@ -293,7 +293,22 @@ fn op_order(line: &str, args: &[SExp]) -> CaseResult {
         req.attributes_mut().add(t, IppAttribute::new(&nm, v));
     }
     let bytes = req.to_bytes();
-    let oracle = order_oracle(&bytes, req.attributes());
+    let mut oracle = order_oracle(&bytes, req.attributes());
+    if oracle.is_none() {
+        // a request built for a target has its operation target attributes present by construction: printer-uri
+        // third, and for the job operations addressed by printer-uri + job-id, job-id fourth
+        let with_target = !matches!(kind.as_str(), "cups_get_printers" | "new_response") && !(kind == "new_request" && line.contains(" new_request ~ "));
+        let with_job_id = matches!(kind.as_str(), "send_document" | "cancel_job" | "get_job_attributes");
+        let names = wire_names(&bytes);
+        if with_target && names.get(2).map(|s| s.as_str()) != Some("printer-uri") {
+            oracle = Some(format!("a {} request for a target printer: operation attribute #3 on the wire is `{}`, RFC 8011 requires printer-uri (order seen: {:?})", kind, names.get(2).cloned().unwrap_or_default(), &names[..names.len().min(6)]));
+        } else if with_job_id
+            && names.get(3).map(|s| s.as_str()) != Some("job-id")
+            && !(names.get(3).map(|s| s.as_str()) == Some("job-uri") && names.get(4).map(|s| s.as_str()) == Some("job-id"))
+        {
+            oracle = Some(format!("a {} request addressed by printer-uri + job-id: operation attribute #4 on the wire is `{}`, RFC 8011 requires job-id (order seen: {:?})", kind, names.get(3).cloned().unwrap_or_default(), &names[..names.len().min(6)]));
+        }
+    }
     // prefix: header, group tag, then attributes while their names are RFC 8011 header attributes
     let mut i = 9.min(bytes.len());
     while i < bytes.len() && bytes[i] >= 0x10 {
@@ -447,6 +462,29 @@ fn finish_build(eff: String, req: IppRequestResponse, kind: String, payload: Vec
 }
 
 /// RFC 8011 4.1.4-4.1.5 on the encoded bytes: names of the first attributes of the first group
+/// names of the attributes of the first group on the wire, read with an independent little reader
+pub fn wire_names(bytes: &[u8]) -> Vec<String> {
+    let mut names: Vec<String> = vec![];
+    if bytes.len() <= 8 || bytes[8] != 1 {
+        return names;
+    }
+    let mut i = 9;
+    while i + 2 < bytes.len() && bytes[i] >= 0x10 {
+        let nl = u16::from_be_bytes([bytes[i + 1], bytes[i + 2]]) as usize;
+        if i + 3 + nl + 2 > bytes.len() {
+            break;
+        }
+        let name = String::from_utf8_lossy(&bytes[i + 3..i + 3 + nl]).to_string();
+        let vo = i + 3 + nl;
+        let vl = u16::from_be_bytes([bytes[vo], bytes[vo + 1]]) as usize;
+        if nl > 0 {
+            names.push(name);
+        }
+        i = vo + 2 + vl;
+    }
+    names
+}
+
 pub fn order_oracle(bytes: &[u8], attrs: &IppAttributes) -> Option<String> {
     // read the names of the attributes of the first group with an independent little reader
     let mut names: Vec<String> = vec![];
